@@ -96,6 +96,8 @@ def table_maps():
                 for sel in itertools.product((120000, 60000), repeat=k):
                     if any(a == b for a, b in zip(sel, sel[1:])):
                         out.append(tuple(zip(ticks, sel)))
+    # crawling tempi: tempo events whose own timestamps lie beyond one day (0.001 BPM for 300 ticks is 26 hours)
+    out += [((0, 1), (300, 2), (303, 120000)), ((0, 120000), (2, 1), (302, 1), (602, 60000)), ((0, 1), (277, 1000), (278, 1))]
     return out
 
 
@@ -181,6 +183,17 @@ def run_shard(shard, ctx):
                 ctx.violation("table", dict(kind="table", tempo=[list(x) for x in tempo], tick=0, hint=0), "tempo map %r (well-formed) is rejected with %s: no tick of it can be looked up" % ([list(x) for x in tempo][:6], type(e).__name__))
                 continue
             tks = [t for t, _ in tempo]
+            # "every timestamp stored on a parsed event equals the un-hinted query for its tick" - the tempo events
+            # themselves included
+            for i, ev in enumerate(be):
+                ctx.evaluations += 1
+                try:
+                    qv = be.timestamp_at_tick(ev.tick)[0]
+                except Exception as e:  # noqa: BLE001
+                    qv = "un-hinted query raises " + type(e).__name__
+                if qv != ev.timestamp:
+                    ctx.violation("stored-tempo-time", dict(kind="stored", tempo=[list(x) for x in tempo], index=i), "tempo map %r: tempo event %d (tick %d) stores the timestamp %s, the un-hinted query for its tick says %s" % ([list(x) for x in tempo][:8], i, ev.tick, ev.timestamp, qv))
+                    break
             if shard[0] == "hugetable":  # very long maps: ticks around the beginning, powers of two, the middle and the end
                 n_ = len(tks)
                 sel_ = sorted({0, 1, 2, 7, 8, 9, 15, 16, 17, 31, 32, 33, 63, 64, 65, 127, 128, 129, 255, 256, 257, n_ // 2, n_ - 3, n_ - 2, n_ - 1} & set(range(n_)))
@@ -241,6 +254,12 @@ def run_shard(shard, ctx):
 
 
 def replay(case):
+    if case.get("kind") == "stored":
+        tempo = [tuple(x) for x in case["tempo"]]
+        be = impl.parse(mk(sync=["0 = TS 4"] + ["%d = B %d" % tn for tn in tempo])).sync_track.bpm_events
+        ev = be[case["index"]]
+        qv = be.timestamp_at_tick(ev.tick)[0]
+        return [] if qv == ev.timestamp else [dict(key="stored-tempo-time", msg="still fails: stored %s, query %s" % (ev.timestamp, qv), case=case)]
     if case.get("kind") == "table":
         tempo = [tuple(x) for x in case["tempo"]]
         text = mk(sync=["0 = TS 4"] + ["%d = B %d" % tn for tn in tempo])
